@@ -1,7 +1,94 @@
 """C06 -- the result does not depend on the field-lookup strategy.  Same cases as C05 (harness/drivers/c05.py): every
 declaration / options / input is parsed under data_first_search=True and False (and, on failure, once more per strategy
 with collect_errors to obtain the full set of error kinds); TLC judges DataParse!SameOutcome on every pair."""
-from .c05 import main_common, finish_notes, features, universe, RULE, TRUSTED, ASSUME, replay  # noqa
+import itertools
+import json
+
+from .. import tlc
+from ..core import MachineryError
+from .c05 import main_common, finish_notes, features, universe, kind_of, val, RULE, TRUSTED, ASSUME  # noqa
+from .c05 import replay as replay_c05
+
+# ---- declarations whose treatment of a field depends on the value given -------------------------------------------------
+VD_FIELDS = [       # (tag, Field(...) arguments); the annotation is Optional[int]
+    ("req+noinput(None)", "no_input=lambda v: v is None"),
+    ("default+noinput(None)", "default=5, no_input=lambda v: v is None"),
+    ("optional+noinput(None)", "required=False, no_input=lambda v: v is None"),
+    ("alias+noinput(None)", "alias='A', no_input=lambda v: v is None"),
+    ("default+noinput(str)", "default=5, no_input=lambda v: isinstance(v, str)"),
+    ("req+noinput(str)", "no_input=lambda v: isinstance(v, str)"),
+    ("req", ""),
+    ("default", "default=5"),
+    ("dep", "required=False, dependencies=['b']"),
+    ("default+defer", "default=5, defer_default=True"),
+]
+VD_OPTS = ["", "invalid_values='exclude'", "ignore_required=True", "no_default=True", "invalid_values='exclude', ignore_required=True",
+           "addition=True", "invalid_values='preserve'", "unprovided_attribute=None"]
+VD_A = ["<absent>", None, 3, "4", "x"]
+VD_B = ["<absent>", 1, "y"]
+
+
+def vd_build(kind, fa, opt, dfs):
+    o = "Options(data_first_search=%s%s)" % (dfs, (", " + opt) if opt else "")
+    akey = "A" if "alias=" in fa else "a"
+    if kind == "class":
+        src = ("class T(Schema):\n    __options__ = %s\n    a: Optional[int] = Field(%s)\n    b: int = Field(required=False)\n"
+               "def call(d):\n    t = T(**d)\n    return dict(t), {k: getattr(t, k, '<unprovided>') for k in ('a', 'b')}\n" % (o, fa))
+    else:
+        pa = fa.replace("required=False", "default=None").replace(", defer_default=True", "")
+        src = ("@utype.parse(options=%s)\ndef T(a: Optional[int]%s, b: int = Param(None)):\n    return {'a': a, 'b': b}\n"
+               "def call(d):\n    r = T(**d)\n    return r, r\n" % (o, (" = Param(%s)" % pa) if pa else ""))
+    ns = {}
+    exec("import utype\nfrom typing import Optional\nfrom utype import Schema, Field, Options, Param\n" + src, ns)
+    return ns["call"], akey, src
+
+
+def vd_observe(call, data):
+    try:
+        d, attrs = call(dict(data))
+    except Exception as e:
+        errs = getattr(e, "errors", None)
+        if errs:
+            return {"ok": False, "kind": kind_of(errs[0]), "allkinds": sorted({kind_of(x) for x in errs}), "data": [], "attrs": []}
+        return {"ok": False, "kind": kind_of(e), "allkinds": [kind_of(e)], "data": [], "attrs": []}
+    return {"ok": True, "kind": "none", "allkinds": [], "data": [{"k": str(k), "v": val(v)} for k, v in sorted(d.items(), key=str)],
+            "attrs": [{"k": str(k), "v": val(v)} for k, v in sorted(attrs.items(), key=str)]}
+
+
+def value_dependent(ck):
+    records, n = [], 0
+    for kind, (tag, fa), opt in itertools.product(("class", "func"), VD_FIELDS, VD_OPTS):
+        if kind == "func" and ("dependencies" in fa or "alias=" in fa and False):
+            continue
+        try:
+            built = {dfs: vd_build(kind, fa, opt, dfs) for dfs in (False, True)}
+        except Exception as e:
+            ck.count("not_judged: value-dependent declaration refused (%s)" % type(e).__name__)
+            continue
+        akey = built[True][1]
+        for a, b in itertools.product(VD_A, VD_B):
+            data = {}
+            if a != "<absent>":
+                data[akey] = a
+            if b != "<absent>":
+                data["b"] = b
+            n += 1
+            runs = {("dfs" if dfs else "ffs"): vd_observe(built[dfs][0], data) for dfs in (False, True)}
+            records.append({"id": "vd%d" % n, "ffs": runs["ffs"], "dfs": runs["dfs"], "kind": kind, "tag": tag, "opt": opt or "default", "input": repr(data),
+                            "src": built[True][2]})
+    res = tlc.judge("Trace_Strategy", "Trace_Strategy.cfg", [{k: r[k] for k in ("id", "ffs", "dfs")} for r in records], workers=8)
+    if res.distinct != len(records):
+        raise MachineryError("trace acceptance (value-dependent declarations): TLC visited %d states, expected %d" % (res.distinct, len(records)))
+    ck.states += res.distinct
+    ck.transitions += res.generated
+    ck.judged(len(records))
+    ck.count("value_dependent_cases_compared_across_strategies", len(records))
+    byid = {r["id"]: r for r in records}
+    for r in records:
+        ck.keys.add("VD|%s|%s|%s|%s" % (r["kind"], r["tag"], r["opt"], r["ffs"]["ok"]))
+    for t in res.tagged("VIOL"):
+        r = byid[t[1]]
+        ck.violation("C06|%s|value-dependent|%s|%s|%s" % (t[2], r["kind"], r["tag"], r["opt"]), t[2], dict(r, vd=True))
 
 
 def main():
@@ -16,9 +103,31 @@ def main():
             else:
                 key_ = "C06|%s|%s|%s" % (t[2], feats, ",".join(sorted(set(rec["otag"].split(",")) - {"default"})) or "default")
             ck.violation(key_, t[2], rec)
+    value_dependent(ck)
     finish_notes(ck, r, byid)
     finish_notes(ck, ru, byu)
-    ck.rule = RULE + "; the two strategies are compared on every case"
+    ck.rule = RULE + ("; the two strategies are compared on every case; plus a grid of declarations (data class / decorated function) whose "
+                      "treatment of a field depends on the value given (callable no_input, excluded / preserved invalid values, dependencies, "
+                      "deferred defaults) x 8 option sets x 15 inputs, compared across the strategies only")
     ck.trusted = TRUSTED
     ck.assumptions = ASSUME + ["two failures agree when one strategy's error kind belongs to the kinds the other one collects"]
     return ck.finish()
+
+
+def replay(path):
+    d = json.load(open(path))
+    rec = d["record"]
+    if not rec.get("vd"):
+        return replay_c05(path)
+    fa = dict(VD_FIELDS)[rec["tag"]]
+    opt = "" if rec["opt"] == "default" else rec["opt"]
+    data = eval(rec["input"])
+    runs = {("dfs" if dfs else "ffs"): vd_observe(vd_build(rec["kind"], fa, opt, dfs)[0], data) for dfs in (False, True)}
+    print(rec["src"])
+    print("input:", data)
+    print("field-first:", runs["ffs"])
+    print("data-first: ", runs["dfs"])
+    r = tlc.judge("Trace_Strategy", "Trace_Strategy.cfg", [{"id": "replay", "ffs": runs["ffs"], "dfs": runs["dfs"]}], workers=1)
+    v = r.tagged("VIOL")
+    print("VIOLATION property=C06 replay=%s" % path if v else "replay: property holds now")
+    return 1 if v else 0
